@@ -233,14 +233,15 @@ func runCheck(id, tier, repo, verif string, seed, jobs int) int {
 			}
 		}
 	}
-	if !hasContracts && rr != nil {
-		fails = append(fails, failure{Fn: "(contracts)", Ob: "no-contracts", Kind: "binding", Err: "no contract is tagged with property " + id + " (zero obligations would be a vacuous pass)", Status: "error"})
-	}
 	// bounded stand-ins registered for this property
 	bres := runBounded(id, tier, repo, verif, seed)
+	if !hasContracts && rr != nil && len(bres) == 0 {
+		fails = append(fails, failure{Fn: "(contracts)", Ob: "no-contracts", Kind: "binding", Err: "no contract is tagged with property " + id + " (zero obligations would be a vacuous pass)", Status: "error"})
+	}
 	violations := 0
 	known := 0
 	knownObs := 0
+	printedKnown := map[string]bool{}
 	if outDir == "" {
 		outDir = verif
 	}
@@ -286,8 +287,11 @@ func runCheck(id, tier, repo, verif string, seed, jobs int) int {
 			for i := range findings {
 				k := &findings[i]
 				if k.Status == "known" && k.Property == id && k.Check != "" && k.Check == bf.Case {
-					fmt.Printf("KNOWN-FINDING: property=%s %s [bounded %s] %s\n", id, k.ID, bf.Case, k.What)
-					known++
+					if !printedKnown[k.ID] {
+						printedKnown[k.ID] = true
+						fmt.Printf("KNOWN-FINDING: property=%s %s [bounded %s] %s\n", id, k.ID, bf.Case, k.What)
+						known++
+					}
 					matched = true
 					break
 				}
